@@ -161,3 +161,100 @@ def series(grids, meta):
     if k == 3:
         return (g for g in list(grids))
     return list(grids)
+
+
+def scribble(hs, grids, depth=0):
+    """Overwrite, in place, everything that can be reached from parse results: rows, cells, metadata, and the
+    attributes of the value objects themselves (what a client may do with what it was handed).  A later parse of the
+    same input is a function of that input -- it must not show any of this."""
+    def val(v):
+        try:
+            if isinstance(v, hs.Grid):
+                if depth < 4:
+                    scribble(hs, [v], depth + 1)
+            elif isinstance(v, list):
+                for x in list(v):
+                    val(x)
+                v.append('scribbled')
+            elif isinstance(v, dict):
+                for x in list(v.values()):
+                    val(x)
+                v['scribbled'] = 'x'
+            elif isinstance(v, hs.Quantity):
+                v.value = 12345.678
+                v.unit = 'scribbled'
+            elif isinstance(v, hs.Ref):
+                v.name = 'scribbled'
+                v.value = 'scribbled'
+                v.has_value = True
+            elif isinstance(v, hs.Coordinate):
+                v.latitude = 1.25
+                v.longitude = -2.5
+            elif isinstance(v, hs.XStr):
+                v.data = bytearray(b'scribbled') if isinstance(v.data, (bytes, bytearray)) else 'scribbled'
+        except Exception:
+            pass
+    for g in grids:
+        try:
+            for row in list(g):
+                if isinstance(row, dict):
+                    for k in list(row.keys()):
+                        val(row[k])
+                        row[k] = 'scribbled'
+                    row['scribbled'] = 1.0
+            for k in list(g.metadata.keys()):
+                val(g.metadata[k])
+                g.metadata[k] = 'scribbled'
+            for c in list(g.column.keys()):
+                for k in list(g.column[c].keys()):
+                    val(g.column[c][k])
+                    g.column[c][k] = 'scribbled'
+        except Exception:
+            pass
+
+
+def edit_values(hs, grids, depth=0):
+    """Change, in place, the content of the value objects a grid holds (the number of a Quantity, the name of a Ref,
+    the payload of an XStr, a Coordinate), keeping them Haystack values.  What is written afterwards denotes the grid
+    as it is NOW.  Returns the number of values changed."""
+    n = [0]
+
+    def val(v):
+        try:
+            if isinstance(v, hs.Grid):
+                if depth < 4:
+                    n[0] += edit_values(hs, [v], depth + 1)
+            elif isinstance(v, list):
+                for x in v:
+                    val(x)
+            elif isinstance(v, dict):
+                for x in v.values():
+                    val(x)
+            elif isinstance(v, hs.Quantity):
+                if v.value == v.value and v.value not in (float('inf'), float('-inf')) and abs(v.value) < 1e15:
+                    v.value = v.value + 1
+                    n[0] += 1
+            elif isinstance(v, hs.Ref):
+                v.name = v.name + 'x'
+                n[0] += 1
+            elif isinstance(v, hs.Coordinate):
+                v.latitude = -v.latitude / 2
+                n[0] += 1
+            elif isinstance(v, hs.XStr):
+                if isinstance(v.data, (bytes, bytearray)):
+                    v.data = bytearray(bytes(v.data) + b'\x01\xfe')
+                elif isinstance(v.data, str):
+                    v.data = v.data + 'x'
+                n[0] += 1
+        except Exception:
+            pass
+    for g in grids:
+        for row in list(g):
+            for k in list(row.keys()):
+                val(row[k])
+        for k in list(g.metadata.keys()):
+            val(g.metadata[k])
+        for c in list(g.column.keys()):
+            for k in list(g.column[c].keys()):
+                val(g.column[c][k])
+    return n[0]
